@@ -76,8 +76,8 @@ pub fn run(tier: Tier) -> i32 {
     let ctx = Ctx::new("C18", tier);
     let k = tier.pick(5usize, 6);
     let lang = Language::english();
-    let alphabet: Vec<String> = ["o", "five", "twenty", "xyzzy", ",", "O", "zero", "hundred", ".", "plus", "-", "o'clock", "third", "and", "twenty-one", "thousand"].iter().map(|s| s.to_string()).collect();
-    let alphabet: Vec<String> = alphabet.into_iter().take(tier.pick(16, 13)).collect();
+    let alphabet: Vec<String> = ["o", "five", "twenty", "xyzzy", ",", "O", "zero", "point", "hundred", ".", "plus", "-", "o'clock", "third", "and", "twenty-one", "thousand"].iter().map(|s| s.to_string()).collect();
+    let alphabet: Vec<String> = alphabet.into_iter().take(tier.pick(17, 14)).collect();
     let acc = explore::all_sequences2(&alphabet, k, |syms, acc| {
         if !syms.iter().any(|s| s.eq_ignore_ascii_case("o")) {
             return;
